@@ -1,5 +1,5 @@
-//! C14 Miri arm: sequential reference, then two threads each calling
-//! decompress_deflate_stream + recompress_deflate_stream on a shared and an own stream.
+//! C14 Miri arm: sequential reference, then two threads concurrently calling
+//! decompress_deflate_stream + recompress_deflate_stream on the same shared stream.
 //! Exit 0 = all results identical and Miri saw no data race / uninitialised read.
 mod streams;
 
@@ -14,22 +14,23 @@ fn run(stream: &[u8], verify: bool) -> (Vec<u8>, Vec<u8>, usize, Vec<u8>) {
 }
 
 fn main() {
-    let shared: Arc<Vec<u8>> = Arc::new(streams::STREAM_0.to_vec());
-    let own: [Arc<Vec<u8>>; 2] = [Arc::new(streams::STREAM_1.to_vec()), Arc::new(streams::STREAM_2.to_vec())];
+    // which of the three embedded streams: argv[1] (default 0)
+    let which: usize = std::env::args().nth(1).and_then(|s| s.parse().ok()).unwrap_or(0) % 3;
+    let stream: Vec<u8> = match which {
+        0 => streams::STREAM_0.to_vec(),
+        1 => streams::STREAM_1.to_vec(),
+        _ => streams::STREAM_2.to_vec(),
+    };
+    let shared: Arc<Vec<u8>> = Arc::new(stream);
     // sequential reference (verify = true exercises the in-call reconstruction as well)
-    let ref_shared = run(&shared, true);
-    let ref_own = [run(&own[0], false), run(&own[1], false)];
+    let reference = run(&shared, true);
     let mut handles = Vec::new();
     for t in 0..2 {
         let shared = shared.clone();
-        let mine = own[t].clone();
-        let ref_shared = ref_shared.clone();
-        let ref_mine = ref_own[t].clone();
+        let reference = reference.clone();
         handles.push(std::thread::spawn(move || {
             let a = run(&shared, false);
-            assert_eq!(a, ref_shared, "thread {}: shared input result differs from sequential reference", t);
-            let b = run(&mine, false);
-            assert_eq!(b, ref_mine, "thread {}: own input result differs from sequential reference", t);
+            assert_eq!(a, reference, "thread {}: result differs from the sequential reference", t);
         }));
     }
     for h in handles {
